@@ -6,9 +6,9 @@ CONSTANTS
  SchemeBound = FALSE
  StripOnRedirect = FALSE
  MaxFaults = 2
- Confs <- ThoroughGenConfs
+ Confs <- QuickGenConfs
  ChalKinds <- AllChal
  FaultKinds <- AllFaults
- RedirTo <- CoreRedir
+ RedirTo <- AllRedir
  TokReplies <- AllTok
  ForeignRealms <- TaRealm
